@@ -7,7 +7,7 @@ from . import lib, model, gen
 SLACK = Fraction(1, 1000)
 
 
-def state_diff(exp, got):
+def state_diff(exp, got, exact=False):
     ea, ef = exp
     ga, gf = got
     d = {}
@@ -21,7 +21,7 @@ def state_diff(exp, got):
             wrong[" ".join(k)] = ("expected", str(ef[k]), "observed", "absent")
         elif k not in ef:
             wrong[" ".join(k)] = ("expected", "absent", "observed", str(gf[k]))
-        elif ef[k] != gf[k] and abs(float(ef[k]) - float(gf[k])) > 1e-9 * max(1.0, abs(float(ef[k]))):
+        elif ef[k] != gf[k] and (exact or abs(float(ef[k]) - float(gf[k])) > 1e-9 * max(abs(float(ef[k])), abs(float(gf[k]))) + 1e-15):
             wrong[" ".join(k)] = ("expected", str(ef[k]), "observed", str(gf[k]))
     if wrong:
         d["fluents"] = wrong
